@@ -170,6 +170,35 @@ pub fn commit_graph() {
     sym::reach(1);
 }
 
+/// params: [k orders]. C13: a replica that travelled back to an inner block melds a block committed elsewhere on top
+/// of the latest heads and refreshes: the applied blocks stay ancestor-closed (heads never contain an ancestor of a head)
+/// and the heads equal those of a replica opened on the same storage.
+pub fn meld_after_travel() {
+    let k = sym::param(0) as usize;
+    let h = build(k, 0);
+    let z = h.a.snapshot();
+    let mut d = z.m.read(None).expect("read");
+    d.insert("y".to_string(), Value::from(2));
+    z.m.update(d).unwrap();
+    let cz = checked_commit(&z, None);
+    let mut ids = h.ids.clone();
+    ids.push(cz);
+    let mut ra = h.a.reopen();
+    let target: BTreeSet<DeltaId> = [h.ids[sym::choose(h.ids.len())].clone()].into_iter().collect();
+    if ra.reload_until(&target).is_err() {
+        sym::reach(2);
+        return;
+    }
+    ra.meld(&z.m).expect("meld");
+    ra.refresh().expect("refresh");
+    check_heads(&ra, &ids);
+    let fresh = h.a.reopen();
+    check_heads(&fresh, &ids);
+    assert!(ra.get_anchors() == fresh.get_anchors(), "heads after time travel + meld + refresh differ from a replica opened on the same storage");
+    assert!(state(&ra) == state(&fresh), "state after time travel + meld + refresh differs from a replica opened on the same storage");
+    sym::reach(1);
+}
+
 fn revisions_of(m: &Melda) -> Vec<(String, String, Option<String>, Map<String, Value>)> {
     // (object, revision, parent, value) for the winner chain of every object
     let mut out = Vec::new();
